@@ -19,6 +19,9 @@ fn dp(n: &str, fixed: &[&str], body: Vec<Expr>) -> Form {
 fn lam(fixed: &[&str], body: Vec<Expr>) -> Expr {
     Expr::Lambda(Formals { fixed: fixed.iter().map(|s| s.to_string()).collect(), rest: None }, Box::new(Body { defs: vec![], exprs: body }))
 }
+fn lam_fixed(fixed: &[&str], body: Vec<Expr>) -> Expr {
+    lam(fixed, body)
+}
 fn set(n: &str, v: Expr) -> Expr {
     Expr::Set(n.into(), Box::new(v))
 }
@@ -105,6 +108,26 @@ fn makers() -> Vec<Form> {
                 }),
             ),
         }),
+        // a self tail call that makes one accumulator per round, each over the round's own `total`
+        Form::Define(Def {
+            name: "mk-accs".into(),
+            sugar: true,
+            value: lam_fixed(
+                &["k", "total", "made"],
+                vec![Expr::If(
+                    Box::new(app("=", vec![var("k"), Expr::Int(0)])),
+                    Box::new(var("made")),
+                    Some(Box::new(app(
+                        "mk-accs",
+                        vec![
+                            app("-", vec![var("k"), Expr::Int(1)]),
+                            app("*", vec![var("total"), Expr::Int(10)]),
+                            app("cons", vec![lam(&["dx"], vec![inc("total", var("dx")), var("total")]), var("made")]),
+                        ],
+                    ))),
+                )],
+            ),
+        }),
         // assignment to a parameter must not leak
         dp("bump-param", &["x"], vec![inc("x", Expr::Int(1)), var("x")]),
         // write through a vector received as argument
@@ -128,7 +151,20 @@ pub fn gen_history(ch: &mut Chooser, max_steps: usize) -> History {
             0 => {
                 // instantiate a counter-like closure
                 let n = *ch.pick(&counters);
-                match ch.below(5) {
+                match ch.below(6) {
+                    5 => {
+                        // two accumulators made by consecutive rounds of one self-tail-calling loop
+                        let n2 = *ch.pick(&counters);
+                        if n2 != n {
+                            let l = format!("accs{}", h.forms.len());
+                            h.forms.push(d(&l, app("mk-accs", vec![Expr::Int(3), Expr::Int(1), Expr::Quote(Datum::List(vec![], None))])));
+                            h.forms.push(d(n, app("car", vec![var(&l)])));
+                            h.names.push((n.into(), Kind::Accum));
+                            h.forms.push(d(n2, app("cadr", vec![var(&l)])));
+                            h.names.push((n2.into(), Kind::Accum));
+                            h.label("closures-from-consecutive-rounds");
+                        }
+                    }
                     4 => {
                         h.forms.push(d(n, app("mk-late", vec![])));
                         h.names.push((n.into(), Kind::Counter));
@@ -489,7 +525,7 @@ pub fn run(ctx: &Ctx) {
          addresses) compared with the model's. Non-trivial = a write observed through another access path, or several \
          closures over shared/distinct bindings exercised.",
     );
-    let cases = ctx.tier.pick(6_000, 40_000);
+    let cases = ctx.tier.pick(12_000, 40_000);
     let steps = ctx.tier.pick(30, 60);
     ctx.random("histories", cases, 400, |ch| case(ch, steps));
 }
